@@ -46,6 +46,12 @@ def gen(chk, binary, tier):
         c.append(sc)
     cc.refine_scripts(binary, c, [kinds], rng, adder=cc.add_burst_probes)
     streams.append(("typed-twin-keys", c))
+    # (d) several caches in ONE process, created one after the other with different option lists (options equal to the
+    #     defaults omitted), running concurrently, often over the very same typed keys: each must behave as a lone cache
+    #     with the configuration copt_create gives for its own list (cache_is_function_of_own_options_and_events)
+    d = cc.multi_scripts(rng, n // 4)
+    cc.refine_scripts(binary, d, [kinds], rng, adder=cc.add_burst_probes)
+    streams.append(("several-caches-one-process", d))
     return streams
 
 
@@ -154,11 +160,15 @@ def run(chk):
     binary = cc.build_ft(chk)
     if binary:
         try:
-            corpus = [cc.parse_line(l) for l in all_corpus if l.startswith("ftc")]
+            corpus = [cc.parse_line(l) for l in all_corpus if l.startswith(("ftc", "ftm"))]
             cc.check_batch(chk, binary, "corpus", corpus, cc.monitor_c04, nontrivial=nontrivial)
             sample_lines = []
             for name, scripts in gen(chk, binary, chk.tier):
                 res = cc.check_batch(chk, binary, name, scripts, cc.monitor_c04, nontrivial=nontrivial)
+                if name == "several-caches-one-process":
+                    chk.cov["caches_in_multi_cache_processes"] = len(res)
+                    chk.cov["caches_created_without_WithExpire"] = chk.cov.get("caches_created_without_WithExpire", 0) + sum(
+                        1 for sc, _ in res if not any(o.startswith("E") for o in sc.opt_tokens()))
                 for sc, logs in res:
                     if logs and len(sample_lines) < 80 and not logs[0].hang:
                         variants, _, _ = cc.build_histories(sc, logs[0])
@@ -182,15 +192,8 @@ def search(chk):
         return
     chk.rng = chk.rng.fork()
     for name, scripts in gen(chk, binary, "quick"):
-        outs = cc.run_ft(binary, [s.line() for s in scripts])
-        for sc, out in zip(scripts, outs):
-            if out.startswith("PANIC"):
-                chk.monitor_fail("panic", sc.line(), out[:500], out[:300])
-                continue
-            for log in cc.split_trials(out):
-                mf = cc.monitor_c04(sc, log)
-                if mf:
-                    chk.monitor_fail(mf[0], sc.line(), log.text[:3000], mf[1])
+        cc.expected_configs(chk, scripts)
+        cc.monitor_items(chk, binary, scripts, cc.monitor_c04)
     if not chk.monitor_failures:
         run_stress(chk, 300)
 
@@ -198,7 +201,7 @@ def search(chk):
 def replay(chk, path):
     rep = json.load(open(path))
     binary = cc.build_ft(chk)
-    cases = [x["case"] for x in rep.get("failing_inputs", []) + rep.get("divergences", []) if isinstance(x.get("case"), str) and x["case"].startswith("ftc")]
+    cases = [x["case"] for x in rep.get("failing_inputs", []) + rep.get("divergences", []) if isinstance(x.get("case"), str) and x["case"].startswith(("ftc", "ftm"))]
     scripts = [cc.parse_line(c) for c in cases]
     cc.check_batch(chk, binary, "replay", scripts, cc.monitor_c04)
     bad = len(chk.divergences) + len(chk.monitor_failures)
